@@ -148,7 +148,7 @@ def bounds(facts):
                 walk(fn["body"], lambda n: nfn.__setitem__(0, n["v"]) if n.get("k") == "Ref" and n.get("n") == "NO_FALSE_NEGATIVES" and "v" in n else None)
                 for err in (0, 1):
                     for U, L in ((True, True), (True, False), (False, False)):
-                        vals = [tt_eval(l, mk_atom(err, U, L), inl) for l in lits]
+                        vals = [tt_eval(l, mk_atom(err, U, L), inl, 0, fn["body"]) for l in lits]
                         val = False if any(v is False for v in vals) else (True if all(v is True for v in vals) else None)
                         if val is None or val != (U if err == nfn[0] else L):
                             ok = False
